@@ -208,24 +208,83 @@ func Materialise(w *Wiring, variant int) (data []byte, ok bool) {
 				body[i] = l.tgt(av(i))
 			case "dict":
 				body[i] = fmt.Sprintf("<< /V %d >>", i)
+			case "name":
+				body[i] = "/ASCIIHexDecode"
 			}
 		}
 		lenText := func(i int) string {
-			if av(i) == 0 {
+			if av(i) == 0 || k(i) == "fstream" {
 				return ""
 			}
 			return l.tgt(av(i))
 		}
+		// does the reference chain from the /Filter of i end in a number without object?
+		resolvesNull := func(i int) bool {
+			t := av(i)
+			for step := 0; step <= w.N; step++ {
+				if t < 1 || t > w.N || bv(t) == w.N+1 {
+					return true
+				}
+				if bv(t) != 0 || k(t) != "ref" {
+					return false
+				}
+				t = av(t)
+			}
+			return false
+		}
+		// the /Filter entry of an "fstream": a reference, or (alternative
+		// rendering) an array whose only element is the reference
+		filterText := func(i int) string {
+			if k(i) != "fstream" || av(i) == 0 {
+				return ""
+			}
+			// (an array element that resolves to null is an error, a null /Filter
+			// is no filter: the array form is used where the model's answer holds)
+			if alt && !resolvesNull(i) {
+				return fmt.Sprintf("/Filter [%s] ", l.tgt(av(i)))
+			}
+			return fmt.Sprintf("/Filter %s ", l.tgt(av(i)))
+		}
+		// does the reader find the name of a filter there?  (references are
+		// followed at top level only: GetFilters does not look into object
+		// streams.)  If so the data must be encoded accordingly.
+		filtered := func(i int) bool {
+			if k(i) != "fstream" || av(i) == 0 {
+				return false
+			}
+			t := av(i)
+			for step := 0; step <= w.N; step++ {
+				if t < 1 || t > w.N || bv(t) != 0 {
+					return false
+				}
+				switch k(t) {
+				case "name":
+					return true
+				case "ref":
+					t = av(t)
+				default:
+					return false
+				}
+			}
+			return false
+		}
+		enc := func(i int, data []byte) []byte {
+			if filtered(i) {
+				return hexN(data, 1)
+			}
+			return data
+		}
 		memberText := map[int]string{}
 		for _, m := range members {
-			if k(m) == "stream" {
+			switch k(m) {
+			case "stream", "fstream":
 				lt := lenText(m)
 				if lt == "" {
 					lt = "2"
 				}
 				// no EOL before the keyword: the enclosing stream's extent stays unambiguous when its own /Length is unusable
-				memberText[m] = fmt.Sprintf("<< /Length %s >>\nstream\nxy endstream", lt)
-			} else {
+				memberText[m] = fmt.Sprintf("<< /Length %s %s>>\nstream\nxy endstream", lt, filterText(m))
+			default:
 				memberText[m] = body[m]
 			}
 		}
@@ -242,12 +301,12 @@ func Materialise(w *Wiring, variant int) (data []byte, ok bool) {
 					}
 				}
 				extra = append(extra, xent{num: i, typ: 2, stm: bv(i), idx: idx})
-			case k(i) == "stream":
+			case k(i) == "stream" || k(i) == "fstream":
 				if len(members) > 0 {
 					data, n, first := objStmData(members, memberText)
-					f.stm(i, fmt.Sprintf("/Type /ObjStm /N %d /First %d", n, first), lenText(i), data)
+					f.stm(i, fmt.Sprintf("/Type /ObjStm /N %d /First %d %s", n, first, filterText(i)), lenText(i), enc(i, data))
 				} else {
-					f.stm(i, "", lenText(i), []byte("xyz"))
+					f.stm(i, filterText(i), lenText(i), enc(i, []byte("xyz")))
 				}
 			default:
 				f.obj(i, body[i], false)
